@@ -84,6 +84,10 @@ M = [
      "        kwargs.setdefault(\"interpolation\", None)\n        super().__init__(*args, **kwargs)\n\n\nclass LibraryConfig", "        super().__init__(*args, **kwargs)\n\n\nclass LibraryConfig"),
     ("C18", "init-client-appver-swapped", "scripts/ofxget.py",
      "        appid=args[\"appid\"] or None,\n        appver=args[\"appver\"] or None,", "        appid=args[\"appver\"] or None,\n        appver=args[\"appid\"] or None,"),
+    ("C18", "scan-saves-lowest-version", "scripts/ofxget.py",
+     "    args[\"version\"] = versions[-1]", "    args[\"version\"] = versions[0]"),
+    ("C18", "scan-write-ignores-result", "scripts/ofxget.py",
+     "            write_config(ChainMap(extra_args, dict(args)))", "            write_config(ChainMap(dict(args), extra_args))"),
     # ---- C19
     ("C19", "accttype-mapping", "scripts/ofxget.py",
      "                StmtRq(\n                    acctid=acctid,\n                    accttype=accttype.upper(),", "                StmtRq(\n                    acctid=acctid,\n                    accttype=\"CHECKING\" if accttype == \"moneymrkt\" else accttype.upper(),"),
